@@ -387,13 +387,10 @@ func vpH_C08_T_restart_leftover() {
 func vpH_C08_T_same_cause_twice() {
 	H := time.Second
 	vpSetOpt("rand-fixed", 1)
-	cause := vpChoose("cause", vpCauseStop)
+	cause := []int{vpCauseConflict, vpCauseValidation, vpCausePreemptSeen, vpCauseDeletedSeen, vpCauseUnreachable}[vpChoose("cause", 5)]
 	hc := &vpHealth{}
 	vpC08Drain = 0
 	s := vpTermInstance(H, true, true, func(cfg *ElectionConfig) {
-		if cause == vpCauseValidation {
-			cfg.ValidationInterval = H
-		}
 		if cause == vpCauseHealth {
 			cfg.HealthChecker = hc
 			cfg.MaxConsecutiveFailures = 2
@@ -403,13 +400,18 @@ func vpH_C08_T_same_cause_twice() {
 		if !s.e.IsLeader() {
 			vpEndPath("not-leading")
 		}
-		if cause == vpCauseValidation {
-			s.kv.faults = []int{vpFaultHang}
-			s.kv.faultLeft = 100
-			s.kv.faultOps = "update"
-		}
 		d0 := s.cb.demotes
-		s.endTerm(cause)
+		if cause == vpCauseValidation {
+			// a later incarnation's token in the record, noticed by a validation the application asks for
+			s.st.noEvents = true
+			s.st.write("env:a2", "update", vpRecMk("a", "tok-later", 0), false, s.st.lastSeq)
+			s.st.noEvents = false
+			ok := s.e.ValidateTokenOrDemote(vpRootCtx())
+			vpAssert("C04.false-means-demoted", !ok && !s.e.IsLeader())
+			vpQuiesce()
+		} else {
+			s.endTerm(cause)
+		}
 		if cause == vpCauseHealth && s.e.IsLeader() && s.cb.demotes == d0 {
 			vpEndPath("health-script-kept-leader")
 		}
@@ -419,7 +421,10 @@ func vpH_C08_T_same_cause_twice() {
 		// whoever holds the record goes away; the instance takes over again
 		s.kv.faultLeft = 0
 		s.kv.faults = nil
-		s.st.write("env:cleanup", "delete", nil, true, 0)
+		s.kv.faultForce = false
+		if !(s.st.live() && s.st.writer == "a") {
+			s.st.write("env:cleanup", "delete", nil, true, 0)
+		}
 		time.Sleep(H + 200*time.Millisecond)
 		vpQuiesce()
 	}
